@@ -404,7 +404,11 @@ func (w *world) main() {
 		if w.p.InFlight == "read" && i == 0 {
 			continue // exercised by the in-flight read itself
 		}
-		sent := w.sendDownTo(i, fmt.Sprintf("works-d%d", i))
+		bi := i
+		if i >= w.preDowns {
+			bi = len(w.B.Downs) - 1 // the stream opened by the in-flight call: the broker's latest entry (an interrupted open is sent again)
+		}
+		sent := w.sendDownTo(bi, fmt.Sprintf("works-d%d", i))
 		rctx, rcancel := kit.Ctx(10 * time.Second)
 		ch, err := d.D.ReadDataPoints(rctx)
 		rcancel()
@@ -452,7 +456,7 @@ func (w *world) inflight(ctx context.Context) {
 		u, err := w.OpenUp(ctx, "late-up", iscp.WithUpstreamFlushPolicyNone(), iscp.WithUpstreamQoS(message.QoSReliable))
 		w.lateUp, w.inflErr = u, err
 	case "opendown":
-		d, err := w.OpenDown(ctx, "late-down", kit.Filter("src2"))
+		d, err := w.OpenDown(ctx, "late-down", kit.Filter("src2"), iscp.WithDownstreamQoS(message.QoSReliable))
 		w.lateDown, w.inflErr = d, err
 	case "meta":
 		w.inflErr = w.Conn.SendMetadata(ctx, &message.BaseTime{SessionID: "sess", Name: "inflight"})
@@ -578,6 +582,17 @@ func run(sc vlib.Scenario, cfg vsched.Config) (*vsched.Result, vlib.Verdict) {
 			if (d.Resumed < 1 || d.Resumed > w.estCuts) && !w.p.Refuse {
 				v.Fail("C05.events", fmt.Sprintf("downstream-resumed=%d/outages=%d/dev=%v", min(d.Resumed, 3), w.estCuts, dev), "downstream %s: resumed handler fired %d times for %d outages", d.Name, d.Resumed, w.estCuts)
 			}
+		}
+	}
+	// 2b. a stream whose open call was interrupted by the failure and sent again works like any other
+	if reached && w.p.InFlight == "opendown" && w.inflDone && w.inflErr == nil && w.lateDown != nil && !kit.ReportedClosed(w.lateDown.Closed) {
+		if wk, ok := w.works[w.lateDown.Name]; ok && wk != "sent=true read=nil ok=true" {
+			v.Fail("C05.works", "late-downstream:"+wk, "the downstream whose open call was interrupted by the failure was opened (nil) but does not work: %s", wk)
+		}
+	}
+	if reached && w.p.InFlight == "openup" && w.inflDone && w.inflErr == nil && w.lateUp != nil && !kit.ReportedClosed(w.lateUp.Closed) {
+		if wk, ok := w.works[w.lateUp.Name]; ok && wk != "write=nil flush=nil received=true" {
+			v.Fail("C05.works", "late-upstream:"+wk, "the upstream whose open call was interrupted by the failure was opened (nil) but does not work: %s", wk)
 		}
 	}
 	// 3. the in-flight call succeeded after recovery
